@@ -324,6 +324,22 @@ func DiscoverBus(p *Prog) *BusRoles {
 	need(r.PublishFn != nil, "func PublishContext")
 	need(r.NameFn != nil, "func EventType")
 	var invoker *ssa.Function
+	// persist function: the method of *EventBus whose body (or a closure of it)
+	// invokes EventStore.Append
+	for _, f := range p.FuncsIn(PkgBus) {
+		for _, b := range f.Blocks {
+			for _, in := range b.Instrs {
+				if ci, ok := in.(ssa.CallInstruction); ok {
+					c := ci.Common()
+					if c.IsInvoke() && c.Method.Name() == "Append" && isNamed(c.Value.Type(), PkgBus, "EventStore") {
+						if o := outermost(f); recvTypeName(o) == "EventBus" {
+							r.PersistFn = o
+						}
+					}
+				}
+			}
+		}
+	}
 	for _, f := range p.FuncsIn(PkgBus) {
 		if f.Parent() != nil {
 			continue
